@@ -1060,6 +1060,13 @@ class FnEmitter:
         ctor, place = ch
         p = self.rv(place)
         t = self.tmp(self.ctype(e), '(%s)%s' % (self.ctype(e), self.paren(p)))
+        uc = self.unwrap_ctor(ctor)
+        if e.get('initStyle') is None and uc.get('kind') == 'CXXConstructExpr' and not children(uc) and self.tm.is_elem(uc['type']):
+            # 'new (p) T;' is DEFAULT-initialisation, not value-initialisation: for a type without a user-provided default constructor
+            # the scalar members stay indeterminate.  The element type is generic, so the two are kept apart.
+            self.f.l0.add('L0_E_default_construct')
+            self.emit_stmt_call('L0_E_default_construct(%s)' % t, True)
+            return t
         self.construct_into(ctor, t)
         return t
 
